@@ -369,9 +369,29 @@ def hang_confirmed():
         return False
 
 
+def too_many_hangs(limit=6):
+    """the run has met `limit` hangs after the first confirmed one: it is a violation already,
+    a workload may stop producing more of the same"""
+    d = _hang_dir()
+    try:
+        return bool(d) and len(os.listdir(d)) >= limit
+    except OSError:
+        return False
+
+
+def _note_hang():
+    d = _hang_dir()
+    if d:
+        try:
+            open(os.path.join(d, "hang-%d-%d" % (os.getpid(), int(time.time() * 1000))), "w").close()
+        except OSError:
+            pass
+
+
 def crash_violation(run, prefix, exc, witness):
     """turn a WorldCrash into a violation on `run`"""
     if exc.hang and hang_confirmed():
+        _note_hang()
         # a hang of this run has been confirmed by a replay already: no second confirmation
         run.violation("%s/hang" % prefix, witness, "harness process did not answer %r within "
                       "the watchdog (a hang of this run was confirmed by replay before)"
